@@ -231,6 +231,27 @@ DOC_TABLE = {
     "delegate_by = ref": {"trait"},
     "?Send": {"fn", "mod", "trait"},
 }
+def doc_table_from_source():
+    """the option table of the crate documentation, parsed from /repo/src/lib.rs on every run:
+    option name -> set of targets.  `DOC_TABLE` above (and `C17.documented` in Lean) are its
+    transcription; a difference means the documentation changed and the transcription is stale."""
+    import re
+    try:
+        text = open(os.path.join(runner.REPO, "src", "lib.rs")).read()
+    except OSError:
+        return None
+    out = {}
+    for line in text.splitlines():
+        m = re.match(r"\s*///\s*\|\s*`([^`]+)`\s*\|[^|]*\|([^|]*)\|", line)
+        if m and m.group(1) in ("no_deps", "export", "mock_api", "unimock", "mockall", "delegate_by", "?Send"):
+            out[m.group(1)] = set(re.findall(r"`(fn|mod|trait|impl)`", m.group(2)))
+    return out
+
+
+def doc_table_transcribed():
+    return {k.split(" ")[0]: v for k, v in DOC_TABLE.items()}
+
+
 TARGET_ITEMS = {
     "fn": ("Foo", "fn foo<D>(d: &D) {}", "fn foo() {}"),
     "mod": ("Foo", "mod m { pub fn foo<D>(d: &D) {} }", "mod m { pub fn foo() {} }"),
